@@ -296,7 +296,8 @@ Theorem share_rules : forall cfg d callee req opts proc,
              /\ invoke = reg_policy r /\ ~ In sid (reg_callees r))) /\
        (share_ok r invoke sid = true ->
         exists mps, register cfg d callee req opts proc =
-                    (share_state d r sid (opt_bool opts "disclose_caller"), [(sid, RRegistered req (reg_id r))], mps)) /\
+                    (share_state d r sid (opt_bool opts "disclose_caller") (opt_bool opts "forward_timeout"),
+                     [(sid, RRegistered req (reg_id r))], mps)) /\
        (share_ok r invoke sid = false ->
         register cfg d callee req opts proc = (d, [(sid, RError c_REGISTER req [] e_procedure_exists [] [])], []))).
 Proof. exact share_rules_proof. Qed.
